@@ -148,6 +148,9 @@ class Keeper:
         if a["kind"] == "reset":
             return (None, "", b"")
         body = json.dumps({"authorizationScheme": "Azure-HMAC-SHA256", "guid": a["guid"], "issued": "2024-01-01T00:00:00Z", "key": a["key"]})
+        if a["kind"] == "truncated":
+            # the whole document, announced 64 bytes longer than it is, then the connection is dropped
+            return (200, "application/json; charset=utf-8", body.encode(), True, len(body.encode()) + 64)
         return (200, "application/json; charset=utf-8", body.encode())
 
     def tr(self, what):
